@@ -240,9 +240,9 @@ func wrapBranch(name string, message profile.Message, branch BranchRegoResult, m
 
 		if len(vars) > 0 {
 			acc = append(acc, fmt.Sprintf("  message_vars := [%s]", strings.Join(vars, ",")))
-			acc = append(acc, fmt.Sprintf("  message := sprintf(\"%s\", message_vars)", sanitizedMessage(message.Expression)))
+			acc = append(acc, fmt.Sprintf("  message := sprintf(%s, message_vars)", sanitizedMessage(message.Expression)))
 		} else {
-			acc = append(acc, fmt.Sprintf("  message := \"%s\"", sanitizedMessage(message.Expression)))
+			acc = append(acc, fmt.Sprintf("  message := %s", sanitizedMessage(message.Expression)))
 		}
 	}
 
@@ -250,7 +250,7 @@ func wrapBranch(name string, message profile.Message, branch BranchRegoResult, m
 	return acc
 }
 
+// sanitizedMessage renders the message as a Rego string literal (quotes included); double quotes are shown as single quotes
 func sanitizedMessage(s string) string {
-	result := strings.ReplaceAll(s, "\n", "\\n")
-	return strings.ReplaceAll(result, "\"", "'")
+	return regoString(strings.ReplaceAll(s, "\"", "'"))
 }
